@@ -68,6 +68,9 @@ NEEDS = {
  "C20d": "a server's only cached region is replaced by regions on the same server (split with both daughters local)",
  "C10e": "a Delete with DeleteOneVersion and a family whose inner map is empty but not nil ({cf: {}}): cellblock form says DeleteFamily, protobuf form DELETE_FAMILY_VERSION",
  "C16e": "equal table names and start keys that first differ at bytes 128 or more apart (one byte >= 0x80, the other low): sign inverted, at exactly 128 not antisymmetric",
+ "C14d": "the server answers more_results=false while the region scanner is still open (more_results_in_region=true) on the second request of a region",
+ "C07e": "three rounds: round 1 one call fails fatally while another is retried, round 2 only retryable outcomes (flag overwritten), round 3 success",
+ "C02d": "one multi with >=2 cell-carrying results of the same region listed in another order than the action indices",
  "C18d": "a response that arrives for a call whose context has already ended (counter not decremented, deadline left armed), then an idle period longer than the read timeout",
 }
 CHECKS = {  # seed -> checks to try (own property first)
@@ -78,7 +81,7 @@ CHECKS = {  # seed -> checks to try (own property first)
  "C16c": ["C16"], "C19c": ["C19", "C03"], "C20c": ["C20", "C19"],
  "C01d": ["C01", "C08"], "C04d": ["C04", "C17"], "C06d": ["C06", "C14"], "C07d": ["C07"], "C08d": ["C08", "C01"], "C10d": ["C10"], "C15d": ["C15"], "C16d": ["C16"], "C19d": ["C19", "C20"], "C20d": ["C20", "C19"],
  "C02c": ["C02"], "C03c": ["C03"], "C05c": ["C05"], "C06c": ["C06"], "C11c": ["C11"], "C12c": ["C12", "C01"], "C13c": ["C13", "C03"], "C14c": ["C14"], "C17c": ["C17", "C13"], "C18c": ["C18"],
- "C10e": ["C10", "C05"], "C16e": ["C16", "C01"], "C18d": ["C18", "C03", "C13"],
+ "C14d": ["C14"], "C07e": ["C07"], "C02d": ["C02"], "C10e": ["C10", "C05"], "C16e": ["C16", "C01"], "C18d": ["C18", "C03", "C13"],
 }
 names = sys.argv[1:] or sorted(os.listdir('/verif/seeded'))
 rows = []
